@@ -57,6 +57,17 @@ def run(prog):
                             (r_[0] == "index" and "label(" in show(r_[2])):
                         watch_helpers.add(g.name)
 
+    # ... or a closure of the constructor doing the same (`let mut watch = |lit, idx| { tab[lit.label()..].push(idx) }`)
+    watch_closures = set()
+    for g in prog.lib_fns:
+        if g.npath.startswith(fn.npath + "::{closure"):
+            for c2 in g.terms.calls:
+                if c2.callee.name == "push" and len(c2.args) == 2:
+                    r_ = strip(c2.args[0])
+                    if (r_[0] == "call" and r_[1].name in ("index", "index_mut") and "label(" in show(r_[2][1])) or \
+                            (r_[0] == "index" and "label(" in show(r_[2])):
+                        watch_closures.add(g.npath)
+
     def is_clause(t):
         s = show(strip(t))
         return s.endswith("as Some).0.1") and "next" in s
@@ -112,6 +123,21 @@ def run(prog):
                 if cs.callee.local and nm in watch_helpers:
                     eff.append(("watch", "via %s" % nm, cs.line))
                     continue
+                if nm in ("call_mut", "call", "call_once") and cs.args and watch_closures:
+                    # a call of the local closure that registers a watch
+                    from .mir import norm as _norm
+                    if _norm(getattr(cs.callee, "res", None) or "") in watch_closures or (getattr(cs.callee, "res", None) or "") in watch_closures:
+                        eff.append(("watch", "via closure", cs.line))
+                        continue
+                    tgt = strip(cs.args[0])
+                    if tgt[0] in ("mutref", "ref", "local") and len(tgt) == 2:
+                        v0 = te.state_in.get(cs.bb, {}).get(tgt[1]) or te.state_out.get(cs.bb, {}).get(tgt[1])
+                        tgt = strip(v0) if v0 is not None else tgt
+                    while isinstance(tgt, tuple) and tgt and tgt[0] in ("mut", "ref", "deref", "mutref") and len(tgt) > 1 and isinstance(tgt[-1], tuple):
+                        tgt = strip(tgt[-1])
+                    if isinstance(tgt, tuple) and tgt and tgt[0] == "agg" and tgt[1] == "closure" and tgt[2] in watch_closures:
+                        eff.append(("watch", "via closure", cs.line))
+                        continue
                 if nm == "push" and len(cs.args) == 2:
                     recv = strip(cs.args[0])
                     if wl_row(cs.args[0], fn):
